@@ -167,4 +167,16 @@ CLAIMS.update({
         note=COMMON_NOTE + ' The key theorems speak about parsed URLs (net/url.Parse is modelled for the generated grammar: no userinfo, no opaque form); URLs outside url_wf (e.g. a bracketed host '
              'without a colon) are covered by the run only. The history-level statement is checked by the monitor, not proved over histories.'),
 })
+CLAIMS.update({
+    'C05': dict(
+        text=('Byte level, over the reader of a stored entry (metadata line + http.ReadResponse + reading the body to its end, modelled in Wire.v): C05_read_length_framed, C05_read_chunked, '
+              'C05_read_close_delimited — for EVERY body (any bytes: CR/LF, NUL, text that looks like a status line, a chunk or a metadata line; any length), every status line and field lines, every '
+              'cutting of the body into chunks and every trailer section, reading a message of the grammar returns exactly its status line, fields and body; C05_read_bodiless; C05_read_entry. '
+              'Field level: C05_hop_by_hop_removed, C05_end_to_end_kept, C05_hop_by_hop_names (Connection, everything the Connection lines name, Keep-Alive, TE, Transfer-Encoding, Upgrade, Proxy-*), '
+              'C05_stored_is_origin, C05_served_is_stored (a hit returns the stored status and body and every stored field except Age, the status fields and fields named by a qualified no-cache). '
+              'The run sends real HTTP messages over the loopback interface in every framing (Content-Length, chunked with and without trailers, close-delimited, HTTP/1.0, HTTP/2 with and without length) '
+              'with adversarial bodies up to 1 MiB and header corpora on memcache, fscache and encrypted fscache, compares MISS and HIT byte for byte with the response as net/http delivered it, and '
+              'parses every stored entry with the extracted reader and with Go; monitor mon_C05 on generated histories.'),
+        note=COMMON_NOTE + ' httputil.DumpResponse and net/http framing are modelled as "any message of the grammar" and tied by parsing what was really stored; trailers are compared for presence of the body only (net/http keeps them outside the header map).'),
+})
 NOT_YET = {}
